@@ -84,7 +84,9 @@ class FieldArrayModel(FieldCompositeModel):
         # Set the size field for arrays that don't
         # have a random size
         if self.is_rand_sz:
-            self.size.set_used_rand(True)
+            # The size is a solve variable only where the list itself 
+            # is random in this call
+            self.size.set_used_rand(self.is_used_rand)
         else:
             self._set_size(len(self.field_l))
         FieldCompositeModel.pre_randomize(self, visited)
